@@ -489,7 +489,7 @@ class CategoricalClassification:
         y = []
         if decision_function is not None:
             if n > 2:
-                if type(p) != list:
+                if not isinstance(p, (list, np.ndarray)):
                     p = 1 / n
                     percentiles = [p * 100]
                     for i in range(1, n - 1):
